@@ -6,5 +6,5 @@ cd /repo || exit 9
 if ! git diff --quiet; then echo "/repo dirty"; exit 9; fi
 git apply "$PATCH" || { echo "patch does not apply"; exit 9; }
 trap 'git -C /repo checkout -- .' EXIT
-cd /verif && env "$@" timeout 1800 ./check $ID --tier quick 2>&1 | grep -E "^(VIOLATION|OK|HARNESS|KNOWN|violation|  msg|  site|C[0-9]+ tier)" | cut -c1-400
+cd /verif && env VERIF_NO_EVIDENCE=1 "$@" timeout 1800 ./check $ID --tier quick 2>&1 | grep -E "^(VIOLATION|OK|HARNESS|KNOWN|violation|  msg|  site|C[0-9]+ tier)" | cut -c1-400
 echo "exit=${PIPESTATUS[0]}"
